@@ -228,7 +228,7 @@ func run(c Case) (v vkit.Verdict) {
 	if p := vkit.Catch(func() { rt, dist, tm, sd, ed = net.ShortestRoute(c.From.Pt(), c.To.Pt()) }); p != "" {
 		return v.Fail("ShortestRoute panicked: %s", p)
 	}
-	if math.Abs(sd-ds) > 1e-9 || math.Abs(ed-de) > 1e-9 {
+	if vkit.Off(sd-ds, 1e-9) || vkit.Off(ed-de, 1e-9) {
 		return v.Fail("startDistance/endDistance = %v/%v, distances to the nearest network nodes are %v/%v", sd, ed, ds, de)
 	}
 	// identify the returned pieces with input links
@@ -256,7 +256,7 @@ func run(c Case) (v vkit.Verdict) {
 		sumD += lens[li]
 		sumT += lens[li] / c.Links[li].Speed
 	}
-	if math.Abs(dist-sumD) > 1e-9*(1+sumD) || math.Abs(tm-sumT) > 1e-9*(1+sumT) {
+	if vkit.Off(dist-sumD, 1e-9*(1+sumD)) || vkit.Off(tm-sumT, 1e-9*(1+sumT)) {
 		return v.Fail("reported distance/time %v/%v, sums over the returned links %v/%v", dist, tm, sumD, sumT)
 	}
 	cost := sumD
